@@ -1235,6 +1235,32 @@ MUTANTS = [
          "        __TBB_ASSERT(m_stack_state.load(std::memory_order_relaxed) == stack_state::suspended, nullptr);\n        m_stack_state.store(stack_state::active, std::memory_order_relaxed);")]),
 ]
 
+MUTANTS += [
+    dict(name='c20-cancelled-resume-task-is-dropped', prop='C20', clause='D5', edits=[('src/tbb/scheduler_common.h',
+        "            return execute(ed);\n        }\n    } m_resume_task;", "            suppress_unused_warning(ed);\n            return nullptr;\n        }\n    } m_resume_task;")]),
+    dict(name='c20-seed3-critical-resume-not-advertised', prop='C20', clause='D2', edits=[('src/tbb/task.cpp', """        if (task_disp.m_properties.critical_task_allowed) {
+            // The target is not in the process of executing critical task, so the resume task is not critical.
+            a.my_resume_task_stream.push(&sp->m_resume_task, random_lane_selector(sp->m_random));
+        } else {
+    #if __TBB_PREVIEW_CRITICAL_TASKS
+            // The target is in the process of executing critical task, so the resume task is critical.
+            a.my_critical_task_stream.push(&sp->m_resume_task, random_lane_selector(sp->m_random));
+    #endif
+        }
+        // Do not access target after that point.
+        a.advertise_new_work<arena::wakeup>();""", """#if __TBB_PREVIEW_CRITICAL_TASKS
+        if (!task_disp.m_properties.critical_task_allowed) {
+            a.my_critical_task_stream.push(&sp->m_resume_task, random_lane_selector(sp->m_random));
+        } else
+#endif
+        {
+            a.my_resume_task_stream.push(&sp->m_resume_task, random_lane_selector(sp->m_random));
+            a.advertise_new_work<arena::wakeup>();
+        }""")]),
+    dict(name='c16-seed3-mandatory-revocation-skipped', prop='C16', clause='D5', edits=[(AR_CPP,
+        "        request_workers(mandatory_delta, workers_delta);\n    }\n}", "        if (workers_delta != 0) {\n            request_workers(mandatory_delta, workers_delta);\n        }\n    }\n}")]),
+]
+
 BENIGN = [
     # known findings must stay matched when unrelated lines move
     dict(name='c16-b-line-shift-known-finding', prop='C16', edits=[(AR_CPP, "#include \"arena.h\"\n", "// a comment\n// another comment\n#include \"arena.h\"\n")]),
